@@ -17,6 +17,24 @@ REPO = os.environ.get('PVS_REPO', '/repo')
 PKG_DIRS = ('pero_ocr', 'user_scripts')
 
 
+def copy_ast(node):
+    """Structural copy of an AST (sub)tree: much cheaper than copy.deepcopy, keeps the extra attributes set at load time."""
+    if isinstance(node, ast.AST):
+        new = node.__class__.__new__(node.__class__)
+        d = new.__dict__
+        for k, v in node.__dict__.items():
+            if isinstance(v, ast.AST):
+                d[k] = copy_ast(v)
+            elif isinstance(v, list):
+                d[k] = [copy_ast(x) for x in v]
+            else:
+                d[k] = v
+        return new
+    if isinstance(node, list):
+        return [copy_ast(x) for x in node]
+    return node
+
+
 class AnalysisError(Exception):
     """The analyser cannot decide (anchor vanished, unknown idiom). Exit code 2."""
 
@@ -146,6 +164,46 @@ def normalise_tree(tree):
                 break
             return n
     tree = C().visit(tree)
+
+    def fold_loops(body):
+        """`v = []` directly followed by `for t in it: v.append(e)` (optionally under one `if c:`)  ->  `v = [e for t in it if c]`."""
+        out = []
+        i = 0
+        while i < len(body):
+            s = body[i]
+            for field in ('body', 'orelse', 'finalbody'):
+                sub = getattr(s, field, None)
+                if isinstance(sub, list) and sub and isinstance(sub[0], ast.stmt):
+                    setattr(s, field, fold_loops(sub))
+            for h in getattr(s, 'handlers', []) or []:
+                h.body = fold_loops(h.body)
+            nxt = body[i + 1] if i + 1 < len(body) else None
+            if isinstance(s, ast.Assign) and len(s.targets) == 1 and isinstance(s.targets[0], ast.Name) and isinstance(s.value, ast.List) and not s.value.elts \
+                    and isinstance(nxt, ast.For) and not nxt.orelse and len(nxt.body) == 1:
+                v = s.targets[0].id
+                inner = nxt.body[0]
+                cond = []
+                if isinstance(inner, ast.If) and not inner.orelse and len(inner.body) == 1:
+                    cond = [inner.test]
+                    inner = inner.body[0]
+                if isinstance(inner, ast.Expr) and isinstance(inner.value, ast.Call) and isinstance(inner.value.func, ast.Attribute) and inner.value.func.attr == 'append' \
+                        and isinstance(inner.value.func.value, ast.Name) and inner.value.func.value.id == v and len(inner.value.args) == 1 \
+                        and not any(isinstance(x, ast.Name) and x.id == v for x in ast.walk(inner.value.args[0])) \
+                        and not any(isinstance(x, ast.Name) and x.id == v for x in ast.walk(nxt.iter)) \
+                        and not any(isinstance(x, ast.Name) and x.id == v for t in cond for x in ast.walk(t)):
+                    comp = ast.ListComp(elt=inner.value.args[0], generators=[ast.comprehension(target=nxt.target, iter=nxt.iter, ifs=cond, is_async=0)])
+                    new = ast.Assign(targets=s.targets, value=comp)
+                    ast.copy_location(new, nxt)
+                    ast.copy_location(comp, nxt)
+                    out.append(new)
+                    i += 2
+                    continue
+            out.append(s)
+            i += 1
+        return out
+    for n in ast.walk(tree):
+        if isinstance(n, (ast.FunctionDef, ast.AsyncFunctionDef)):
+            n.body = fold_loops(n.body)
     ast.fix_missing_locations(tree)
     return tree
 
@@ -239,6 +297,9 @@ class Repo:
         self.classes = {}
         self.relocations = []
         self._load()
+        from .inliner import Inliner
+        self.inliner = Inliner(self)
+        self.inliner.run()
 
     def _load(self):
         for d in PKG_DIRS:
@@ -823,7 +884,7 @@ class Flow:
                 mkey = (node.id, at_nid, frozenset(stop))
                 if mkey in flow._inl_memo:
                     hit = flow._inl_memo[mkey]
-                    return node if hit is None else _copy.deepcopy(hit)
+                    return node if hit is None else copy_ast(hit)
                 res = self._visit_Name(node)
                 flow._inl_memo[mkey] = None if res is node else res
                 return res
@@ -857,7 +918,7 @@ class Flow:
 
         import copy
         import copy as _copy
-        return T().visit(copy.deepcopy(expr)) if not isinstance(expr, ast.Name) else T().visit_Name(expr)
+        return T().visit(copy_ast(expr)) if not isinstance(expr, ast.Name) else T().visit_Name(expr)
 
     def resolve(self, expr, at_ast=None):
         """Follow plain aliases `a = b` / temporaries back to the defining expression (arguments are not expanded)."""
@@ -906,6 +967,40 @@ class Flow:
 # ----------------------------------------------------------------------------
 # normal forms
 # ----------------------------------------------------------------------------
+
+_FN_ALIAS = {'np.amin': 'np.min', 'np.amax': 'np.max', 'numpy.amin': 'np.min', 'numpy.amax': 'np.max', 'np.array': 'np.asarray',
+             'numpy.array': 'np.asarray', 'numpy.asarray': 'np.asarray', 'np.round_': 'np.round', 'np.around': 'np.round'}
+_ARRAY_METHODS = {'min', 'max', 'sum', 'mean', 'argmax', 'argmin', 'reshape', 'flatten', 'ravel', 'astype', 'transpose', 'copy', 'tolist', 'nonzero', 'cumsum'}
+
+
+def _format_to_fstr(fmt, args):
+    """'{}-l{:03d}'.format(a, b)  ->  the JoinedStr f'{a}-l{b:03d}' (auto-numbered or explicitly numbered fields only)."""
+    import string
+    values = []
+    auto = 0
+    try:
+        parsed = list(string.Formatter().parse(fmt))
+    except ValueError:
+        return None
+    for lit, field, spec, conv in parsed:
+        if lit:
+            values.append(ast.Constant(value=lit))
+        if field is None:
+            continue
+        if field == '':
+            idx = auto
+            auto += 1
+        elif field.isdigit():
+            idx = int(field)
+        else:
+            return None
+        if idx >= len(args) or (spec and '{' in spec):
+            return None
+        fv = ast.FormattedValue(value=args[idx], conversion=ord(conv) if conv else -1,
+                                format_spec=ast.JoinedStr(values=[ast.Constant(value=spec)]) if spec else None)
+        values.append(fv)
+    return ast.JoinedStr(values=values)
+
 
 COMMUTATIVE_CALLS = {'np.logaddexp', 'np.minimum', 'np.maximum', 'numpy.logaddexp', 'np.add', 'min', 'max',
                      'np.logical_and', 'np.logical_or'}
@@ -959,6 +1054,20 @@ def canon(expr, params=(), rename=None, consts=None):
             fn = dotted(e.func)
             if fn and (fn.split('.')[0] in rename or fn.split('.')[0] in params) and fn.split('.')[0] != 'self':
                 fn = None           # method call on a local / parameter: the receiver is a term, not a name
+            fn = _FN_ALIAS.get(fn, fn)
+            # array methods and their numpy function forms are one idiom: a.min(axis=0) == np.min(a, axis=0)
+            if isinstance(e.func, ast.Attribute) and e.func.attr in _ARRAY_METHODS and not (isinstance(e.func.value, ast.Name) and e.func.value.id in ('np', 'numpy', 'torch', 'math')):
+                recv = e.func.value
+                if not (isinstance(recv, ast.Name) and recv.id == 'self'):
+                    args = [c(recv)] + [c(a) for a in e.args]
+                    kws = tuple(sorted((k.arg or '**', c(k.value)) for k in e.keywords))
+                    return ('call', ('fn', 'np.' + e.func.attr), tuple(args), kws)
+            if fn == 'str' and len(e.args) == 1 and not e.keywords:
+                return ('fstr', ('fmt', c(e.args[0]), -1, None))
+            if isinstance(e.func, ast.Attribute) and e.func.attr == 'format' and isinstance(e.func.value, ast.Constant) and isinstance(e.func.value.value, str) and not e.keywords:
+                conv = _format_to_fstr(e.func.value.value, e.args)
+                if conv is not None:
+                    return c(conv)
             fnc = ('fn', fn) if fn else c(e.func)
             eargs = e.args
             if fn and fn in ('min', 'max', 'np.min', 'np.max', 'np.amin', 'np.amax') and len(eargs) == 1 and not e.keywords \
@@ -972,6 +1081,8 @@ def canon(expr, params=(), rename=None, consts=None):
                 args = sorted(args, key=repr)
             return ('call', fnc, tuple(args), kws)
         if isinstance(e, ast.Attribute):
+            if dotted(e) in ('np.newaxis', 'numpy.newaxis'):
+                return ('const', 'None')
             return ('attr', c(e.value), e.attr)
         if isinstance(e, ast.Subscript):
             return ('sub', c(e.value), c(e.slice))
@@ -1003,7 +1114,8 @@ def canon(expr, params=(), rename=None, consts=None):
         if isinstance(e, ast.Set):
             return ('set',) + tuple(sorted((c(x) for x in e.elts), key=repr))
         if isinstance(e, ast.JoinedStr):
-            return ('fstr',) + tuple(c(v) for v in e.values)
+            parts = [c(v) for v in e.values if not (isinstance(v, ast.Constant) and v.value == '')]
+            return ('fstr',) + tuple(parts)
         if isinstance(e, ast.FormattedValue):
             return ('fmt', c(e.value), e.conversion, c(e.format_spec) if e.format_spec else None)
         return ('raw', ' '.join(src(e).split()))
